@@ -444,7 +444,7 @@ def compare_with_fresh_process(ctx, sdl, enum_kind, judged):
 
 def run(ctx):
     rng = ctx.rng
-    n_schemas = ctx.n(9, 60)
+    n_schemas = ctx.n(9, 44)
     use_lean = ctx.model_ok and ctx.driver.available()
     lean_batch = [] if use_lean else None
     fixed_cases(ctx, lean_batch)
